@@ -29,6 +29,10 @@ def roundtrip(e, rng):
     """-> (verdict, detail, text)"""
     import sympy
 
+    if not isinstance(e, (int, float)) and sympy.sympify(e).has(sympy.I):
+        # a complex constant (a negative number raised to a fractional power during evaluation): quantities of the domain are real,
+        # the expression language has no imaginary unit — outside the property's quantifier
+        return "undecided", "complex constant (outside the domain)", None
     try:
         s = B.serialize(e)
     except Exception as ex:
@@ -265,12 +269,31 @@ def generated(ctx):
             ctx.disagreement("Lean parse of the printed text (value)", {"printed": s}, E.to_str_full(mt)[:300], {"impl": str(e2), "at": d})
 
 
+def corpus(ctx):
+    """F17: nested sums / products over several indices (sympy flattens them into one object with several limits)"""
+    for s_ in ("sum_over(sum_over(x*i, i, 1, 3), j, 0, 4)", "sum_over(sum_over(x*i*j, i, 1, N), j, 0, M)", "prod_over(prod_over(x + i, i, 2, 2), i, 0, 4)",
+               "sum_over(prod_over(x + i*j, i, 1, j), j, 1, N)"):
+        ctx.stats["corpus_cases"] += 1
+        ctx.stats["evaluations"] += 1
+        try:
+            e = B.as_expression(s_)
+            t = B.serialize(e)
+            back = B.as_expression(t)
+        except Exception as ex:
+            ctx.violation("failing-input", f"corpus: a nested sum_over/prod_over does not survive serialize->parse ({type(ex).__name__})", {"expression": s_}, str(ex)[:200], "the same expression")
+            return
+        if back != e:
+            ctx.violation("failing-input", "corpus: a nested sum_over/prod_over is read back as another expression", {"expression": s_}, str(back), str(e))
+            return
+
+
 def run(ctx, widen=False):
     ctx.notes.append("sympy's own layout of Add/Mul (term order, sign extraction) is external and not modelled; its effect is covered by the value comparison")
     ctx.rule = ("(a) every resource / port size / constraint side of compiled, partially and totally evaluated routines of the hierarchy stream; (b) generated sympy "
                 "objects to depth 4 over 14 name shapes, integers, rationals, floats, pi, E, powers (negative, fractional, symbolic, nested), Max/Min/floor/ceiling/Abs/"
                 "Mod/log2/gamma/log/sqrt/exp, uninterpreted calls, Sum/Product; non-trivial = distinct printed text containing a power, a Sum/Product or a reserved / "
                 "port name")
+    corpus(ctx)
     literal_precision(ctx)
     generated(ctx)
     if ctx.violations:
